@@ -281,3 +281,52 @@ Proof.
   intros Heq [<-|[<-|[]]] p recs H; apply (record_table_ok eqb Heq); try exact H; intros;
     [apply g_mr_Function_eq|apply g_mr_StackInfoCfi_eq]; assumption.
 Qed.
+
+(* ---- line records of a FUNC: zero-size lines are filtered, the range is (address, address + (size - 1)) if that
+   does not overflow, then the trait's builder; the value is the whole line record ---- *)
+Section Lines.
+Context {V : Type} (eqb : V -> V -> bool).
+Hypothesis eqb_eq : forall a b, eqb a b = true <-> a = b.
+
+Definition g_line_table (p : profile) (lines : list (Z * Z * V)) : outcome (list (range * V)) :=
+  do l <- omap (fun e => let '(b, s, v) := e in do r <- g_mr_line p b s; Ret (r, v))
+               (filter (fun e => let '(b, s, v) := e in g_line_keep s) lines);
+  g_build_traits eqb l.
+
+Lemma line_table_ok p lines : u64_recs lines ->
+  exists t, g_line_table p lines = Ret t /\
+    StronglySorted (fun a b => snd (fst a) < fst (fst b)) t /\
+    (forall x v, rm_get t x = Some v ->
+       exists b s, In (b, s, v) lines /\ 0 < s /\ b + (s - 1) < two64 /\ b <= x <= b + (s - 1)).
+Proof.
+  intros H.
+  set (kept := filter (fun e : Z * Z * V => let '(b, s, v) := e in g_line_keep s) lines).
+  set (pure := fun e : Z * Z * V => let '(b, s, v) := e in (mk_range_line b s, v)).
+  set (P := fun e : Z * Z * V => u64 (fst (fst e)) /\ u64 (snd (fst e)) /\ g_line_keep (snd (fst e)) = true).
+  assert (HP : Forall P kept).
+  { apply Forall_forall. intros [[b s] v] Hin. apply filter_In in Hin. destruct Hin as [Hin Hk].
+    unfold u64_recs in H. rewrite Forall_forall in H. destruct (H _ Hin) as [Hb Hs]. unfold P. cbn [fst snd] in *. auto. }
+  assert (Hl : omap (fun e => let '(b, s, v) := e in do r <- g_mr_line p b s; Ret (r, v)) kept = Ret (map pure kept)).
+  { apply (omap_pure _ pure P); [|exact HP]. intros [[b s] v] [Hb [Hs Hk]]. cbn [fst snd] in *.
+    rewrite g_mr_line_eq by assumption. reflexivity. }
+  assert (Hshape : forall b s r, u64 b -> u64 s -> g_line_keep s = true -> mk_range_line b s = Some r ->
+                   0 < s /\ b + (s - 1) < two64 /\ r = (b, b + (s - 1))).
+  { intros b s r Hb Hs Hk. rewrite g_line_keep_eq in Hk. apply Z.ltb_lt in Hk.
+    unfold mk_range_line, checked_add. destruct (b + (s - 1) <? 2 ^ 64) eqn:E; [|discriminate].
+    apply Z.ltb_lt in E. rewrite <- two64_val in E. intros Hr; inversion Hr. auto. }
+  assert (Hwf : wf_entries (map pure kept)).
+  { unfold wf_entries. apply Forall_forall. intros [o v] Hin. cbn [fst]. destruct o as [r|]; [|exact I].
+    apply in_map_iff in Hin. destruct Hin as [[[b s] v'] [E Hin]]. cbn in E. inversion E as [[Hr Hv]].
+    rewrite Forall_forall in HP. destruct (HP _ Hin) as [Hb [Hs Hk]]. cbn [fst snd] in *.
+    destruct (Hshape b s r Hb Hs Hk Hr) as [H0 [Hlt Er]]. subst r. unfold wf_range, u64 in *. cbn [fst snd]. lia. }
+  exists (into_rangemap_safe eqb (map pure kept)).
+  split; [unfold g_line_table; fold kept; rewrite Hl; cbn [obind]; apply g_build_traits_total; exact Hwf|].
+  split; [apply (sorted_disjoint eqb _ Hwf)|].
+  intros x v Hg. destruct (lookup_sound eqb eqb_eq _ x v Hwf Hg) as [r [Hin Hc]].
+  apply in_map_iff in Hin. destruct Hin as [[[b s] v'] [E Hin]]. cbn in E. inversion E as [[Hr Hv]]. subst v'.
+  rewrite Forall_forall in HP. destruct (HP _ Hin) as [Hb [Hs Hk]]. cbn [fst snd] in *.
+  destruct (Hshape b s r Hb Hs Hk Hr) as [H0 [Hlt Er]]. subst r.
+  apply filter_In in Hin. destruct Hin as [Hin _]. exists b, s. split; [exact Hin|]. split; [exact H0|]. split; [exact Hlt|].
+  unfold contains in Hc. cbn [fst snd] in Hc. apply andb_prop in Hc. destruct Hc as [C1 C2]. apply Z.leb_le in C1, C2. lia.
+Qed.
+End Lines.
